@@ -5,5 +5,6 @@ INVARIANT DiskIsMemAtBoundary
 INVARIANT DiskIsPrefix
 INVARIANT DiskIsCommitted
 INVARIANT NoWriteWhenDisabled
+INVARIANT StaleReplaced
 INVARIANT FinalStructure
 PROPERTY FileOnlyGrows
